@@ -321,10 +321,7 @@ class Orchestrator:  # thailint: ignore[srp]
         patterns = self.config.get("ignore") if isinstance(self.config, dict) else None
         if not isinstance(patterns, list) or not patterns:
             return False
-        try:
-            check_path = str(file_path.relative_to(self.project_root))
-        except ValueError:
-            check_path = str(file_path)
+        check_path = str(self._path_in_project(file_path))
         return any(matches_pattern(check_path, str(pattern)) for pattern in patterns)
 
     def lint_files(self, file_paths: list[Path]) -> list[Violation]:
